@@ -107,6 +107,12 @@ func (h *harness) judge(o *outcome) []failure {
 			releaseIDs(w.H, gone)
 		}
 	}
+	// the final response reached the renter exactly as the host sent it and the renter
+	// function still reports a failure (and gives its inputs back) although the host
+	// recorded and broadcast the contract: the two sides disagree about a finished exchange
+	if pl := o.M.plan; committed && o.RenterErr != nil && o.M.dlvR3 != nil && pl.T1 == "" && pl.T2 == "" && pl.T3 == "" && pl.T4 == "" {
+		fail("renter-failed-although-host-committed", "the host recorded and broadcast the contract and its final response (%d transaction(s)) was delivered unchanged, but the renter function failed (%v) and released its inputs (renter calls %v)", len(*viewFinal(o.M.dlvR3).Set), o.RenterErr, o.Signer.calls)
+	}
 	if !committed {
 		// failed or abandoned: no contract, every reservation released
 		if len(o.Log.recorded) != 0 {
